@@ -2,6 +2,8 @@
 package c11
 
 import (
+	mh "github.com/multiformats/go-multihash"
+	"github.com/ipfs/go-cid"
 	"math"
 	"fmt"
 	"strings"
@@ -445,6 +447,36 @@ func draw(t *rapid.T) Case {
 		cs.Pol = nil
 		for i := 0; i < n; i++ {
 			cs.Pol = append(cs.Pol, rapid.SampledFrom(cands).Draw(t, "ustmt"))
+		}
+	}
+	if rapid.IntRange(0, 11).Draw(t, "focuslinkeq") == 4 {
+		// == between links that address the same bytes in different ways: one multihash under CIDv0, CIDv1 dag-pb,
+		// raw, dag-cbor, dag-json; another hash function; an identity CID. A link is its CID: two different CIDs
+		// are two different values, alone and nested in list and map literals.
+		seed := rapid.SliceOfN(rapid.Byte(), 1, 3).Draw(t, "lk-seed")
+		dg, _ := mh.Sum(append([]byte("verif-link-eq/"), seed...), mh.SHA2_256, -1)
+		dg512, _ := mh.Sum(append([]byte("verif-link-eq/"), seed...), mh.SHA2_512, -1)
+		idh, _ := mh.Sum(seed, mh.IDENTITY, -1)
+		forms := []cid.Cid{cid.NewCidV0(dg), cid.NewCidV1(cid.DagProtobuf, dg), cid.NewCidV1(cid.Raw, dg), cid.NewCidV1(cid.DagCBOR, dg), cid.NewCidV1(cid.DagJSON, dg),
+			cid.NewCidV1(cid.DagCBOR, dg512), cid.NewCidV1(cid.Raw, idh), cid.NewCidV1(cid.DagCBOR, idh)}
+		lk := func(c cid.Cid) val.V { return val.V{K: "link", S: c.String()} }
+		a := lk(rapid.SampledFrom(forms).Draw(t, "lk-a"))
+		b := lk(rapid.SampledFrom(forms[:5]).Draw(t, "lk-b"))
+		mk := func(f val.V) []val.V {
+			return []val.V{f, val.List(f), val.Map(val.E("ref", f)), val.List(val.Map(val.E("ref", f)), val.Int(1))}
+		}
+		da, lb := mk(a), mk(b)
+		i := rapid.IntRange(0, len(da)-1).Draw(t, "lk-shape")
+		lit := lb[i]
+		cs.Data = val.Map(val.E("a", da[i]), val.E("l", val.List(da[i], da[i])))
+		eq := pol.Stmt{Op: "==", Sel: sel.Sel{{Kind: "field", Name: "a"}}, Lit: &lit}
+		switch rapid.IntRange(0, 2).Draw(t, "lk-wrap") {
+		case 0:
+			cs.Pol = pol.Policy{eq}
+		case 1:
+			cs.Pol = pol.Policy{{Op: "not", Sub: []pol.Stmt{eq}}}
+		default:
+			cs.Pol = pol.Policy{{Op: "any", Sel: sel.Sel{{Kind: "field", Name: "l"}}, Sub: []pol.Stmt{{Op: "==", Sel: sel.Sel{{Kind: "id"}}, Lit: &lit}}}}
 		}
 	}
 	if rapid.IntRange(0, 11).Draw(t, "focuslongeq") == 6 {
